@@ -309,6 +309,12 @@ def parse_harness(text):
                 ns = [int(x) for x in t[2:2 + n]]
                 m = int(t[2 + n])
                 vs = [float(x) for x in t[3 + n:3 + n + m]]
+                if kind == 8:
+                    # tracking flag of a stored gradient: the model's gradients are plain arrays by
+                    # construction; a tracked one is kept as a marker item that matches nothing
+                    if ns and ns[0] == 1:
+                        items.append((9, [1], []))
+                    continue
                 items.append((kind, ns, vs))
             cur.append(obs if obs is not None else items)
     return [cases[n] for n in order]
